@@ -67,6 +67,27 @@ func AddressingCorpus() []*Scenario {
 	add("out-add-target-twice", "PostOutbox", outbox(Alice), ap.Both, Doc("Add", "", "actor", Alice, "object", RNote, "target", L{Col1, Col1}, "to", Carol))
 	add("out-update-same-object-twice", "PostOutbox", outbox(Alice), ap.Both, Doc("Update", "", "actor", Alice, "object", L{Emb("Note", Note1, "content", "a"), Emb("Note", Note1, "summary", "b")}, "to", Carol))
 	add("out-delete-same-object-twice", "PostOutbox", outbox(Alice), ap.Both, Doc("Delete", "", "actor", Alice, "object", L{Note1, Note1}, "to", Carol))
+	// outbox: several addressed actors for which the application knows ONE shared inbox (2, 3 and 4 sharers,
+	// next to each other / separated by an actor with an inbox of its own / by a collection)
+	shared := func(actors ...string) func(a *ap.App) {
+		return func(a *ap.App) {
+			a.SharedInbox = map[string]string{}
+			for _, x := range actors {
+				a.SharedInbox[x] = "https://r1.example/shared/inbox"
+			}
+		}
+	}
+	for _, sh := range []struct {
+		name    string
+		to      L
+		sharers []string
+	}{{"2-adjacent", L{Carol, Erin, Dave}, []string{Carol, Erin}}, {"2-apart", L{Carol, Dave, Erin}, []string{Carol, Erin}}, {"3", L{Carol, Erin, Frank}, []string{Carol, Erin, Frank}},
+		{"4-with-collection", L{Carol, RCol, Erin, Frank, Dave}, []string{Carol, Erin, Frank, Dave}}, {"2-last", L{Dave, Carol, Erin}, []string{Carol, Erin}}} {
+		s = append(s, &Scenario{Name: "addr/out-shared-inbox-" + sh.name, Kind: ap.Both, Entry: "PostOutbox", URL: outbox(Alice),
+			Body: Doc("Note", "", "content", "x", "to", sh.to), Tweak: shared(sh.sharers...)},
+			&Scenario{Name: "addr/send-shared-inbox-" + sh.name, Kind: ap.Both, Entry: "Send", URL: outbox(Alice),
+				Body: Doc("Create", "", "actor", Alice, "to", sh.to, "object", Emb("Note", "", "content", "x")), Tweak: shared(sh.sharers...)})
+	}
 	add("out-like-actor-object", "PostOutbox", outbox(Alice), ap.Both, Doc("Like", "", "actor", Alice, "object", L{Alice, RNote}, "to", Alice))
 	return s
 }
